@@ -14,8 +14,8 @@ def sh(cmd, cwd=None, timeout=3600):
     return p.returncode, p.stdout
 
 
-def confirm(pid, k):
-    wt = "/tmp/seed/%s" % pid
+def confirm(pid, k, root="/tmp/seed", tag="m"):
+    wt = "%s/%s" % (root, pid)
     src = os.path.join(wt, "out", "m%s" % k)
     meta = json.load(open(os.path.join(src, "meta.json")))
     crate = meta.get("demo_crate", "rtmp")
@@ -53,7 +53,7 @@ def confirm(pid, k):
             pass
     res["ok"] = ok
     if ok:
-        name = "%s-m%s" % (pid, k)
+        name = "%s-%s%s" % (pid, tag, k)
         dst = os.path.join(SEEDED, name)
         os.makedirs(dst, exist_ok=True)
         shutil.copy(patch, os.path.join(dst, "patch.diff"))
@@ -61,7 +61,7 @@ def confirm(pid, k):
         meta2 = {"property": pid, "summary": meta.get("summary"), "needs": meta.get("needs"), "demo_crate": crate,
                  "origin": "independent sub-agent given only the property text and a scratch worktree",
                  "confirmed": res,
-                 "confirm_commands": ["git apply patch.diff (scratch worktree /tmp/seed/%s)" % pid, "cargo test --workspace --offline",
+                 "confirm_commands": ["git apply patch.diff (scratch worktree %s)" % wt, "cargo test --workspace --offline",
                                       "cargo test --offline -p %s --test seed_demo (with and without the patch)" % pkg]}
         json.dump(meta2, open(os.path.join(dst, "meta.json"), "w"), indent=1)
     return res
@@ -96,6 +96,6 @@ def detect(name, props=None):
 
 if __name__ == "__main__":
     if sys.argv[1] == "confirm":
-        print(json.dumps(confirm(sys.argv[2], sys.argv[3])))
+        print(json.dumps(confirm(*sys.argv[2:])))
     elif sys.argv[1] == "detect":
         print(json.dumps(detect(sys.argv[2], sys.argv[3:] or None)))
